@@ -119,11 +119,14 @@ fn step(o: &mut Object, spec: &mut Spec, op: &str, out: &mut Out) -> Option<(Str
             let (k, n) = (parse_cps(f[1])?, f[2].parse::<usize>().ok()?);
             let mut yielded = Vec::new();
             {
-                let mut it = o.remove(k.as_str());
-                if n >= 9 { for e in it.by_ref() { yielded.push((e.key.to_string(), e.value)); } } else {
+                // ManuallyDrop: if `next()` panics, unwinding must not run the iterator's Drop (a second
+                // panic there would abort the whole harness); the explicit drop below is the
+                // "dropped half-way: Drop completes the removal" of the API
+                let mut it = std::mem::ManuallyDrop::new(o.remove(k.as_str()));
+                if n >= 9 { while let Some(e) = it.next() { yielded.push((e.key.to_string(), e.value)); } } else {
                     for _ in 0..n { if let Some(e) = it.next() { yielded.push((e.key.to_string(), e.value)); } }
                 }
-                // dropped here: Drop completes the removal
+                unsafe { std::mem::ManuallyDrop::drop(&mut it); }
             }
             let removed: Vec<(String, Value)> = spec.iter().filter(|e| e.0 == k).cloned().collect();
             spec.retain(|e| e.0 != k);
@@ -154,12 +157,13 @@ fn step(o: &mut Object, spec: &mut Spec, op: &str, out: &mut Out) -> Option<(Str
             let r = {
                 match o.insert(k.as_str().into(), v.clone()) {
                     None => "fresh".to_string(),
-                    Some(mut it) => {
+                    Some(it) => {
+                        let mut it = std::mem::ManuallyDrop::new(it);
                         let mut yielded = Vec::new();
-                        if n >= 9 { for e in it.by_ref() { yielded.push((e.key.to_string(), e.value)); } } else {
+                        if n >= 9 { while let Some(e) = it.next() { yielded.push((e.key.to_string(), e.value)); } } else {
                             for _ in 0..n { if let Some(e) = it.next() { yielded.push((e.key.to_string(), e.value)); } }
                         }
-                        drop(it);
+                        unsafe { std::mem::ManuallyDrop::drop(&mut it); }
                         show_list(&yielded)
                     }
                 }
@@ -179,12 +183,12 @@ fn step(o: &mut Object, spec: &mut Spec, op: &str, out: &mut Out) -> Option<(Str
         ("insf", 4) => {
             let (k, v, n) = (parse_cps(f[1])?, parse_value(f[2])?, f[3].parse::<usize>().ok()?);
             let r = {
-                let mut it = o.insert_front(k.as_str().into(), v.clone());
+                let mut it = std::mem::ManuallyDrop::new(o.insert_front(k.as_str().into(), v.clone()));
                 let mut yielded = Vec::new();
-                if n >= 9 { for e in it.by_ref() { yielded.push((e.key.to_string(), e.value)); } } else {
+                if n >= 9 { while let Some(e) = it.next() { yielded.push((e.key.to_string(), e.value)); } } else {
                     for _ in 0..n { if let Some(e) = it.next() { yielded.push((e.key.to_string(), e.value)); } }
                 }
-                drop(it);
+                unsafe { std::mem::ManuallyDrop::drop(&mut it); }
                 show_list(&yielded)
             };
             let mut removed = Vec::new();
